@@ -12,12 +12,30 @@ write_min_config x4, sync_deps' auto.conf, and the real kconfgen click command (
 "process": report singleton reset, environment restored) for every --output format incl. cdep_tree and the in-place
 `--config sdkconfig --output config sdkconfig` flow; a subset of formats additionally through `python -m kconfgen`.
 
-Part B (fault enumeration).  `write_config(dest, save_old=True)` of configuration b over an existing complete
-configuration a; dest a regular file or a symlink; `.old` absent (first generation) or holding an older complete
-configuration (second generation); every crash point (before every mutating operation, inside every write at every cut
-point -- this includes the chunked-write model of shutil.copyfile used for symlinks), each on a fresh copy of the
-pre-state.  Oracle at every crash point:  dest == complete new  OR  dest.old == complete previous  OR  (the crash is
-before the backup step has finished AND dest == complete previous).  Crash-free: dest == new and .old == previous (write_config docstring).
+Text alphabet of part A.  Besides ASCII and multi-byte UTF-8 the configurations contain string values with every character
+that is a line boundary for str.splitlines() but NOT for text-file reading (VT 0x0b, FF 0x0c, FS/GS/RS 0x1c-0x1e, NEL
+0x85, U+2028, U+2029): one configuration per character plus one holding all of them (also first / last character of the
+value), each regenerated unchanged, changed to / from an ordinary configuration and changed to the next separator.  A
+second tree (`sep`) carries the same characters in the Kconfig source itself (string default, symbol prompt, menu title,
+comment, help text) so that they reach the outputs that render those (docs, json_menus, the sdkconfig comments) without
+any user value.  Any "did it change" decision that is taken on lines instead of on the text is exposed by these.  The
+format's own line terminators (LF, CR) are not generated inside values, see ASSUMPTIONS.
+
+Part B (fault enumeration over save histories).  One long-lived Kconfig instance (a session) performs 1, 2 or 3 successive
+CHANGED saves to the same destination with backup enabled: hist = [c0, c1, .. cn]; the file initially holds the complete
+text of c0 (written by an independent instance); the session instance is fresh or has load_config()ed the destination;
+before save j it is moved from c(j-1) to c(j) by unset_value()/set_value().  The save is done through the direct API
+(`write_config(dest, save_old=True)`), through the config server's `save` request handler or through menuconfig's
+`_do_save` (the real functions).  dest is a regular file or a symlink; `.old` initially absent or holding an older complete
+configuration.  The whole session runs once crash-free under the logging fault file system, then once per crash point of
+EVERY save of the history (before every mutating operation, inside every write at every cut point -- this includes the
+chunked-write model of shutil.copyfile used for symlinks), each on a fresh copy of the pre-state with a fresh instance
+that really performs the earlier saves.  With new = complete text of c(j) and previous = the content the destination had
+just before save j started (= complete text of c(j-1), checked by the crash-free oracle of save j-1), the oracle at every
+crash point of save j is:  dest == new  OR  dest.old == previous  OR  (the crash is before the backup step of THIS save has
+finished AND dest == previous).  Crash-free, after every save j: dest == new and .old == previous (write_config docstring).
+The reference texts come from twins: a fresh instance that replays the same load / set / unset history and saves through the
+same function into an empty location.
 """
 
 from __future__ import annotations
@@ -34,14 +52,23 @@ from .. import common, faultfs, impl
 ID = "C13"
 LEVEL = "fault_enumeration"
 RULE = (
-    "part A: every generator (13 library variants, 10 in-process kconfgen flows, 3/9 kconfgen subprocess flows) x every ordered "
-    "pair of configurations (a, b) incl. a == b; three real generations per pair (a, then b over it, b into an empty directory). "
-    "part B: write_config(save_old=True) of b over a for every ordered pair with different texts x {regular file, relative "
-    "symlink, absolute symlink (thorough)} x {.old absent, older .old present} x write_deprecated {False, True}; crash-free run "
-    "then every crash point (before each mutating FS operation; inside each write at 0 / every line boundary / middle of last "
-    "line / all-but-one), each on a fresh copy of the pre-state. evaluations = generation pairs + executed crash points + "
-    "crash-free saves. distinct_nontrivial = distinct (generator, unchanged|changed, previous bytes, new bytes) of part A and "
-    "distinct (destination kind, crash operation, surviving pattern of dest, surviving pattern of .old) of part B."
+    "part A: every generator (13 library variants, 2 front-end saves, 10 in-process kconfgen flows, 3/9 kconfgen subprocess "
+    "flows) x ordered pairs of configurations (a, b): all pairs incl. a == b of the ordinary alphabet; for each of the 9 "
+    "configurations whose string value holds a str.splitlines()-only line boundary: unchanged, to and from an ordinary "
+    "configuration, to the next separator configuration (thorough: every ordered pair of ordinary + separator configurations); "
+    "all 9 pairs of 3 configurations of the `sep` tree whose Kconfig texts (default, prompt, menu, comment, help) hold the "
+    "separators. Three real generations per pair (a, then b over it, b into an empty directory). "
+    "part B: a session of n successive changed saves c0 -> c1 -> .. -> cn by ONE instance over a destination holding c0: "
+    "n = 1 for every ordered pair with different texts (direct API, fresh instance, write_deprecated {False, True}, .old absent / "
+    "older .old present); n = 1, 2, 3 over a 3-configuration alphabet (thorough: 4) with consecutive members different x save "
+    "function {write_config(save_old=True), kconfserver save request, menuconfig _do_save} x instance {fresh, has loaded the "
+    "destination} (thorough: x older .old present, x write_deprecated for the direct API); all x {regular file, relative symlink, "
+    "absolute symlink (thorough)}; crash-free session, then every crash point of every save of the session (before each mutating "
+    "FS operation; inside each write at 0 / every line boundary / middle of last line / all-but-one), each on a fresh copy of the "
+    "pre-state with a fresh instance that performs the earlier saves for real. evaluations = generation pairs + executed crash "
+    "points + crash-free saves. distinct_nontrivial = distinct (generator, unchanged|changed, previous bytes, new bytes) of "
+    "part A and distinct (save function, destination kind, older .old, loaded, first|later save, crash operation, surviving "
+    "pattern of dest, surviving pattern of .old) of part B."
 )
 ASSUMPTIONS = [
     "'unchanged' is decided on the output: the same generator run for b into an empty directory produces the bytes already in the "
@@ -52,7 +79,15 @@ ASSUMPTIONS = [
     "crash model: process death, completed operations persist, no reordering; shutil.copyfile is modelled as create/truncate + one "
     "write with cut points; 'complete configuration' = byte-identical to the full text",
     "part B third disjunct as decided in DESIGN.md C13: dest == complete previous counts while the backup has not finished = the "
-    "crash precedes the open(dest, 'w') of the new text, or no operation on the destination itself has completed yet",
+    "crash precedes the open(dest, 'w') of the new text within the save that is interrupted, or no operation of that save on the "
+    "destination itself has completed yet",
+    "in a session 'previous' of save j is the content the destination had just before save j started, i.e. the complete text the "
+    "(crash-free) save j-1 left there; 'new' is what a twin instance with the same load/set/unset history writes into an empty "
+    "location through the same save function; a history with two consecutive equal texts is skipped (that save is not a changed "
+    "save, part A covers it)",
+    "string values never contain the line terminators of the line-oriented output formats themselves (\\n, \\r): such a value is "
+    "not representable in sdkconfig (load_config would split the line) -- observed while widening: a bare \\r in a value makes every "
+    "_contents_eq/_write_if_changed comparison fail because reading translates it to \\n; not generated, reported separately",
 ]
 
 EPOCH_NS = 1_000_000_000 * 10**9
@@ -132,6 +167,29 @@ CONFIGS_THOROUGH = CONFIGS_QUICK + [
     {"FOO_BAR": "y", "N": "7", "S": "line", "NEWP": "y"},
 ]
 
+# Line boundaries of str.splitlines() that are NOT line boundaries when a text file is read (universal newlines know \n, \r, \r\n).
+SEP_CHARS = ["\x0b", "\x0c", "\x1c", "\x1d", "\x1e", "\x85", "\u2028", "\u2029"]
+SEP_CONFIGS: List[Dict[str, str]] = [{"S": f"p{c}q"} for c in SEP_CHARS] + [{"S": "\u2028a\x0b\x0c b\x1c\x1d\x1e\x85c\u2029", "N": "7"}]
+SEP_BYTES = [c.encode("utf-8") for c in SEP_CHARS]
+
+# The same characters in the Kconfig source: default value, symbol prompt, menu title, comment, help text.
+TREE_SEP = (
+    TREE.replace('default "a\\"b\\\\c d"', 'default "d' + "".join(f"{i}{c}" for i, c in enumerate(SEP_CHARS)) + 'e"')
+    .replace('comment "a comment"', 'comment "a\x0ccom\x1ement\u2029"')
+    .replace('menu "M1"', 'menu "M\x1d1\u2028"')
+    .replace("N help.", "N\x0bhe\x85lp\x1c.")
+    .replace('int "n"', 'int "n \x0c n"')
+)
+assert TREE_SEP.count("\x0c") == 3 and all(TREE_SEP.count(c) >= 2 for c in SEP_CHARS), "TREE_SEP was not built"
+TREES = {"base": FILES, "sep": {"Kconfig": TREE_SEP, "sdkconfig.rename": RENAMES}}
+SEP_TREE_CONFIGS: List[Dict[str, str]] = [{}, {"N": "7"}, {"S": "p\x0cq"}]
+
+# part B sessions: indices into CONFIGS_QUICK (pairwise different texts in every save function's format)
+HIST_QUICK = (0, 1, 3)
+HIST_THOROUGH = (0, 1, 3, 4)
+HIST_OLDER = 2  # the configuration of a pre-existing older `.old`
+SAVERS = ("write_config", "kconfserver:save", "menuconfig:_do_save")
+
 
 # --------------------------------------------------------------------------------------------------
 # environment: tree + configurations -> instances / sdkconfig texts
@@ -167,14 +225,13 @@ class Env:
         return d
 
 
-_env: Optional[Env] = None
+_envs: Dict[str, Env] = {}
 
 
-def env() -> Env:
-    global _env
-    if _env is None:
-        _env = Env(FILES)
-    return _env
+def env(tree: str = "base") -> Env:
+    if tree not in _envs:
+        _envs[tree] = Env(TREES[tree])
+    return _envs[tree]
 
 
 # --------------------------------------------------------------------------------------------------
@@ -253,6 +310,35 @@ def _kconfgen(fmt: str, how: str, inplace: bool = False):
     return run
 
 
+def _server_save(k, p) -> None:
+    import kconfserver.core as ks
+
+    err = ks.handle_request(k, {"version": 3, "save": p})
+    if err:
+        raise RuntimeError(f"kconfserver save reported {err}")
+
+
+def _menuconfig_save(k, p) -> None:
+    import types
+
+    from esp_menuconfig.app import MenuConfigApp
+
+    stub = types.SimpleNamespace(state=types.SimpleNamespace(kconf=k, saved=False), notify=lambda *a, **kw: None)
+    if MenuConfigApp._do_save(stub, p) is None:
+        raise RuntimeError("menuconfig _do_save failed")
+
+
+def saver(gen: str, wdep: bool) -> Tuple[str, Callable[[Any, str], None]]:
+    """(call site, save function with backup enabled) of a part B save function"""
+    if gen == "write_config":
+        return "core.py:write_config", lambda k, p: k.write_config(p, save_old=True, write_deprecated=wdep)
+    if gen == "kconfserver:save":
+        return "kconfserver/core.py:handle_request", _server_save
+    if gen == "menuconfig:_do_save":
+        return "esp_menuconfig/app.py:_do_save", _menuconfig_save
+    raise ValueError(gen)
+
+
 def generators() -> Dict[str, Gen]:
     g: List[Gen] = [
         Gen("write_config", "core.py:write_config", "sdkconfig", _api(lambda k, p: k.write_config(p, save_old=False), "sdkconfig")),
@@ -274,22 +360,6 @@ def generators() -> Dict[str, Gen]:
         g.append(Gen(f"kconfgen:{fmt}", site, dest, _kconfgen(fmt, "inprocess")))
         g.append(Gen(f"kconfgen-subprocess:{fmt}", site, dest, _kconfgen(fmt, "subprocess")))
     # the two interactive front ends: the config server's `save` request handler and menuconfig's _do_save (real functions)
-    def _server_save(k, p):
-        import kconfserver.core as ks
-
-        err = ks.handle_request(k, {"version": 3, "save": p})
-        if err:
-            raise RuntimeError(f"kconfserver save reported {err}")
-
-    def _menuconfig_save(k, p):
-        import types
-
-        from esp_menuconfig.app import MenuConfigApp
-
-        stub = types.SimpleNamespace(state=types.SimpleNamespace(kconf=k, saved=False), notify=lambda *a, **kw: None)
-        if MenuConfigApp._do_save(stub, p) is None:
-            raise RuntimeError("menuconfig _do_save failed")
-
     g.append(Gen("kconfserver:save", "kconfserver/core.py:handle_request", "sdkconfig", _api(_server_save, "sdkconfig")))
     g.append(Gen("menuconfig:_do_save", "esp_menuconfig/app.py:_do_save", "sdkconfig", _api(_menuconfig_save, "sdkconfig")))
     g.append(Gen("kconfgen:config:inplace", "kconfgen/core.py:update_if_changed(config)", "sdkconfig", _kconfgen("config", "inprocess", inplace=True), same_only=True))
@@ -311,26 +381,62 @@ def gens() -> Dict[str, Gen]:
 # --------------------------------------------------------------------------------------------------
 
 
+def histories(alphabet, saves: int) -> List[tuple]:
+    """every sequence c0 .. c<saves> over the alphabet whose consecutive members differ"""
+    out = [(x,) for x in alphabet]
+    for _ in range(saves):
+        out = [h + (x,) for h in out for x in alphabet if x != h[-1]]
+    return out
+
+
 def items(tier: str, seed: int):
-    cfgs = CONFIGS_QUICK if tier == "quick" else CONFIGS_THOROUGH
+    quick = tier == "quick"
+    cfgs = CONFIGS_QUICK if quick else CONFIGS_THOROUGH
     out: List[dict] = []
     names = [n for n in gens() if not n.startswith("kconfgen-subprocess:")]
+    # ---- part A: ordinary alphabet, separator alphabet, separator tree
+    if quick:
+        pairs = [(cfgs[a], cfgs[b]) for a, b in itertools.product(range(len(cfgs)), repeat=2)]
+        for n, sc in enumerate(SEP_CONFIGS):
+            pairs += [(sc, sc), (sc, cfgs[1]), (cfgs[1], sc), (sc, SEP_CONFIGS[(n + 1) % len(SEP_CONFIGS)])]
+    else:
+        allc = cfgs + SEP_CONFIGS
+        pairs = [(a, b) for a, b in itertools.product(allc, repeat=2)]
+    work = [("base", a, b) for a, b in pairs] + [("sep", a, b) for a, b in itertools.product(SEP_TREE_CONFIGS, repeat=2)]
     for n in names:
-        for a, b in itertools.product(range(len(cfgs)), repeat=2):
+        for tree, a, b in work:
             if gens()[n].same_only and a != b:
                 continue
-            out.append({"part": "A", "gen": n, "a": cfgs[a], "b": cfgs[b]})
+            out.append({"part": "A", "gen": n, "a": a, "b": b, "tree": tree})
     sub: List[dict] = []
-    for fmt in ("config", "header", "json") if tier == "quick" else KCONFGEN_FORMATS:
-        for a, b in ((1, 1), (1, 3)) if tier == "quick" else ((1, 1), (1, 3), (0, 5), (4, 0)):
-            sub.append({"part": "A", "gen": f"kconfgen-subprocess:{fmt}", "a": cfgs[a], "b": cfgs[b]})
-    kinds = ("regular", "symlink") if tier == "quick" else ("regular", "symlink", "symlink_abs")
+    for fmt in ("config", "header", "json") if quick else KCONFGEN_FORMATS:
+        for a, b in ((1, 1), (1, 3)) if quick else ((1, 1), (1, 3), (0, 5), (4, 0)):
+            sub.append({"part": "A", "gen": f"kconfgen-subprocess:{fmt}", "a": cfgs[a], "b": cfgs[b], "tree": "base"})
+        sub.append({"part": "A", "gen": f"kconfgen-subprocess:{fmt}", "a": SEP_CONFIGS[-1], "b": SEP_CONFIGS[-1], "tree": "base"})
+        if not quick:
+            sub.append({"part": "A", "gen": f"kconfgen-subprocess:{fmt}", "a": {}, "b": {}, "tree": "sep"})
+    # ---- part B: single saves over every ordered pair (direct API, fresh instance)
+    kinds = ("regular", "symlink") if quick else ("regular", "symlink", "symlink_abs")
     for a, b in itertools.permutations(range(len(cfgs)), 2):
         for kind in kinds:
             for old in (False, True):
                 for wdep in (False, True):
                     older = cfgs[[i for i in range(len(cfgs)) if i not in (a, b)][0]]
                     out.append({"part": "B", "a": cfgs[a], "b": cfgs[b], "older": older if old else None, "kind": kind, "write_deprecated": wdep})
+    # ---- part B: sessions of 1..3 successive changed saves by one instance
+    alphabet = HIST_QUICK if quick else HIST_THOROUGH
+    for saves in (1, 2, 3):
+        for h in histories(alphabet, saves):
+            for gen in SAVERS:
+                for load in (False, True):
+                    for kind in kinds:
+                        for old in (False,) if quick else (False, True):
+                            for wdep in (False, True) if (gen == "write_config" and not quick) else (False,):
+                                # a crash inside save j depends on c0..cj only and every prefix of a session is a work item of its own
+                                # (same alphabet, same dimensions): each item enumerates the crash points of its LAST save, so that every
+                                # (session prefix, crash point) is executed exactly once
+                                out.append({"part": "B", "hist": [cfgs[i] for i in h], "gen": gen, "load": load, "older": cfgs[HIST_OLDER] if old else None,
+                                            "kind": kind, "write_deprecated": wdep, "crash_in": "last_save"})
     # the subprocess items take seconds each: spread them over the list so that they land in different worker chunks
     stride = max(1, len(out) // max(1, len(sub)))
     for n, it in enumerate(sub):
@@ -435,6 +541,9 @@ def part_a(e: Env, gen_name: str, a: Dict[str, str], b: Dict[str, str], r: commo
                     f"{gen_name}: {drel} does not exist after generating {a if prev is None else b} "
                     f"(files present: {sorted(before if prev is None else full_stat(dref))})", case)
         return
+    if any(c in prev for c in SEP_BYTES) or any(c in ref for c in SEP_BYTES):
+        # measured coverage of the text alphabet: a splitlines()-only line boundary really reached this output
+        r.count("A_separator_in_" + ("unchanged" if ref == prev else "changed") + "_output")
     if ref == prev:
         r.count("A_unchanged_output" + ("" if same_cfg else "_for_changed_configuration"))
         r.outcome(("A", gen_name, "unchanged", common.h64(_norm(e, prev))))
@@ -487,15 +596,16 @@ def _classify_other(rel: str) -> str:
 # --------------------------------------------------------------------------------------------------
 
 
-def pattern(data: Optional[bytes], new: bytes, prev: bytes, older: Optional[bytes]) -> str:
+def pattern(data: Optional[bytes], new: bytes, prev: bytes, others: List[Tuple[str, Optional[bytes]]]) -> str:
     if data is None:
         return "missing"
     if data == new:
         return "NEW"
     if data == prev:
         return "PREV"
-    if older is not None and data == older:
-        return "OLDER"
+    for name, text in others:
+        if text is not None and data == text:
+            return name
     if data == b"":
         return "empty"
     if new.startswith(data):
@@ -513,23 +623,59 @@ def op_class(op: dict, cut: Optional[int], dest_rels: Tuple[str, ...]) -> str:
     return s
 
 
+def _step(k, before: Dict[str, str], after: Dict[str, str]) -> None:
+    """moves a session instance from configuration `before` to configuration `after`"""
+    for name in sorted(before):
+        if name not in after:
+            k.syms[name].unset_value()
+    for name in sorted(after):
+        k.syms[name].set_value(after[name])
+
+
+def _save_to_empty(save: Callable[[Any, str], None], k) -> bytes:
+    p = impl.tmpfile("c13ref")
+    save(k, p)
+    data = read_through(p)
+    for q in (p, p + ".old"):
+        if os.path.lexists(q):
+            os.unlink(q)
+    if data is None:
+        raise RuntimeError("the reference save into an empty location wrote nothing")
+    return data
+
+
+def session_texts(e: Env, save: Callable[[Any, str], None], hist: List[Dict[str, str]], load: bool) -> List[bytes]:
+    """texts[0]: what an independent instance holding hist[0] saves; texts[j]: what a twin of the session (same load, same
+    set/unset history up to step j) saves into an empty location"""
+    texts = [_save_to_empty(save, e.inst(hist[0]).k)]
+    for j in range(1, len(hist)):
+        i = e.inst({})
+        if load:
+            p = impl.tmpfile("c13load")
+            with open(p, "wb") as f:
+                f.write(texts[0])
+            i.k.load_config(p)
+            os.unlink(p)
+        for m in range(1, j + 1):
+            _step(i.k, hist[m - 1], hist[m])
+        texts.append(_save_to_empty(save, i.k))
+    return texts
+
+
 def part_b(e: Env, item: dict, r: common.Result, only: Optional[list] = None) -> None:
-    a, b, older_cfg, kind, wdep = item["a"], item["b"], item["older"], item["kind"], item["write_deprecated"]
+    hist: List[Dict[str, str]] = item["hist"] if "hist" in item else [item["a"], item["b"]]
+    gen, load = item.get("gen", "write_config"), bool(item.get("load", False))
+    older_cfg, kind, wdep = item["older"], item["kind"], item["write_deprecated"]
+    nsaves = len(hist) - 1
+    site, save = saver(gen, wdep)
     case = dict(item)
     case["files"] = e.files
     case["crash"] = None
 
-    def text(cfg: Dict[str, str]) -> bytes:
-        p = impl.tmpfile("c13ref")
-        e.inst(cfg).k.write_config(p, save_old=False, write_deprecated=wdep)
-        data = read_through(p)
-        os.unlink(p)
-        return data
-
-    prev, new = text(a), text(b)
-    older = text(older_cfg) if older_cfg is not None else None
-    if prev == new:
-        r.skipped += 1  # outside the statement's second sentence: nothing is saved (part A covers it)
+    texts = session_texts(e, save, hist, load)
+    older = _save_to_empty(save, e.inst(older_cfg).k) if older_cfg is not None else None
+    if any(texts[j] == texts[j - 1] for j in range(1, len(texts))):
+        r.skipped += 1  # outside the statement's second sentence: some save of the history saves nothing (part A covers it)
         return
     root = e.fresh("B")
     d = os.path.join(root, "proj")
@@ -542,74 +688,107 @@ def part_b(e: Env, item: dict, r: common.Result, only: Optional[list] = None) ->
         real = os.path.join(d, "real", "sdkconfig.real")
         os.symlink(os.path.join("real", "sdkconfig.real") if kind == "symlink" else real, dest)
     with open(real, "wb") as f:
-        f.write(prev)
+        f.write(texts[0])
     if older is not None:
         with open(dest + ".old", "wb") as f:
             f.write(older)
     pre = faultfs.snapshot(d)
     dest_rels = ("sdkconfig", os.path.relpath(real, d))
+    what = f"{gen} session {' -> '.join(str(c) for c in hist)} ({kind}, .old {'present' if older is not None else 'absent'}, instance {'loaded from dest' if load else 'fresh'})"
 
-    def save() -> None:
-        e.inst(b).k.write_config(dest, save_old=True, write_deprecated=wdep)
+    def session(crash: Optional[tuple], upto: int, seen: Optional[list] = None) -> Tuple[faultfs.FaultFS, List[int]]:
+        """the session's saves 1..upto on a fresh instance; `seen` collects (dest, .old, dest still a symlink) after every save"""
+        i = e.inst({})
+        if load:
+            i.k.load_config(dest)
+        marks: List[int] = []
+        with faultfs.FaultFS(d, crash=crash) as fs:
+            try:
+                for j in range(1, upto + 1):
+                    _step(i.k, hist[j - 1], hist[j])
+                    save(i.k, dest)
+                    marks.append(len(fs.log))
+                    if seen is not None:
+                        seen.append((read_through(dest), read_through(dest + ".old"), os.path.islink(dest)))
+            except faultfs.Crash:
+                pass
+        return fs, marks
+
+    def names_for(j: int) -> List[Tuple[str, Optional[bytes]]]:
+        return [(f"EARLIER{j - 1 - m}", texts[m]) for m in range(j - 2, -1, -1)] + [("OLDER", older)]
 
     # ---- crash-free
+    seen: List[tuple] = []
     try:
-        with faultfs.FaultFS(d) as fs:
-            save()
+        fs, marks = session(None, nsaves, seen)
     except Exception as ex:  # noqa: BLE001 -- observation
         s = site_of(ex)
-        r.violation({"kind": "exception", "exc": type(ex).__name__, "site": s, "part": "B", "dest_kind": kind}, f"write_config(save_old=True) raised {type(ex).__name__}: {ex} at {s}", case)
+        r.violation({"kind": "exception", "exc": type(ex).__name__, "site": s, "part": "B", "gen": gen, "dest_kind": kind, "save": "first" if not seen else "later"},
+                    f"{what}: save #{len(seen) + 1} raised {type(ex).__name__}: {ex} at {s}", case)
         return
     dry = fs.log
-    r.evals += 1
-    D, O = read_through(dest), read_through(dest + ".old")
-    if kind != "regular" and not os.path.islink(dest):
-        r.count("B_symlink_replaced_by_save")  # only a source comment ("Preserve symlinks") promises this: counted, not a violation
-    if D != new or O != prev:
-        r.violation(
-            {"kind": "completed_save_wrong", "site": "core.py:write_config", "dest_kind": kind, "old_present": older is not None, "dest": pattern(D, new, prev, older), "old": pattern(O, new, prev, older),
-             "dest_is_symlink": os.path.islink(dest)},
-            f"completed write_config(save_old=True) of {b} over {a} ({kind}): dest is {pattern(D, new, prev, older)}, .old is {pattern(O, new, prev, older)}, symlink kept: {os.path.islink(dest)}", case)
-    # the backup step is everything before the open(dest, "w") of the new configuration
-    opens = [o["i"] for o in dry if o["op"] == "open" and o["path"] in dest_rels and not o["path"].endswith(".old")]
-    backup_end = opens[-1] if opens else len(dry)
+    for j in range(1, nsaves + 1):
+        r.evals += 1
+        D, O, still_link = seen[j - 1]
+        new, prev = texts[j], texts[j - 1]
+        if kind != "regular" and not still_link:
+            r.count("B_symlink_replaced_by_save")  # only a source comment ("Preserve symlinks") promises this: counted, not a violation
+        if D != new or O != prev:
+            pd, po = pattern(D, new, prev, names_for(j)), pattern(O, new, prev, names_for(j))
+            r.violation(
+                {"kind": "completed_save_wrong", "site": site, "gen": gen, "save": "first" if j == 1 else "later", "dest_kind": kind, "old_present": older is not None,
+                 "dest": pd, "old": po, "dest_is_symlink": still_link},
+                f"{what}: after the completed save #{j} dest is {pd}, .old is {po} (expected NEW / PREV), symlink kept: {still_link}", case)
+    r.count("B_saves", nsaves)
+    r.count("B_sessions")
+    if nsaves > 1:
+        r.count(f"B_sessions_of_{nsaves}_saves")
+    r.count("B_ops", len(dry))
+    # per save: its window of operations; the backup step is everything before the open(dest, "w") of the new configuration;
     # first operation that modifies the destination itself (as target, or as source of a rename): while none has completed
     # the destination is the untouched previous file, whatever the implementation considers its backup step to be
-    touching = [o["i"] for o in dry if o["path"] in dest_rels or o.get("src") in dest_rels]
-    first_dest_op = touching[0] if touching else len(dry)
-    r.count("B_saves")
-    r.count("B_ops", len(dry))
-    # ---- every crash point
+    windows = []
+    for j in range(1, nsaves + 1):
+        lo, hi = (marks[j - 2] if j > 1 else 0), marks[j - 1]
+        opens = [o["i"] for o in dry[lo:hi] if o["op"] == "open" and o["path"] in dest_rels and not o["path"].endswith(".old")]
+        touching = [o["i"] for o in dry[lo:hi] if o["path"] in dest_rels or o.get("src") in dest_rels]
+        windows.append((lo, hi, opens[-1] if opens else hi, touching[0] if touching else hi))
+    # ---- every crash point of every save
     for point in faultfs.crash_points(dry):
         if only is not None and tuple(only) != point:
             continue
+        j = next(n + 1 for n, w in enumerate(windows) if w[0] <= point[0] < w[1])
+        if only is None and item.get("crash_in") == "last_save" and j != nsaves:
+            continue  # executed by the work item of the session prefix c0 .. cj
+        lo, hi, backup_end, first_dest_op = windows[j - 1]
+        new, prev = texts[j], texts[j - 1]
         faultfs.restore(d, pre)
-        with faultfs.FaultFS(d, crash=point) as fs2:
-            try:
-                save()
-            except faultfs.Crash:
-                pass
-            except Exception as ex:  # noqa: BLE001
-                raise RuntimeError(f"crashed save raised {ex!r} before its crash point") from ex
+        try:
+            fs2, _ = session(point, j)
+        except Exception as ex:  # noqa: BLE001
+            raise RuntimeError(f"crashed session raised {ex!r} before its crash point") from ex
         if not fs2.crashed or not faultfs.same_prefix(dry, fs2.log) or len(fs2.log) != point[0] + 1:
-            raise RuntimeError(f"crashed save diverged from the dry run: {fs2.log} vs {dry} at {point}")
+            raise RuntimeError(f"crashed session diverged from the dry run: {fs2.log} vs {dry} at {point}")
         r.evals += 1
         r.count("crash_points")
+        if j > 1:
+            r.count("crash_points_in_later_save")
         if point[1] is not None:
             r.count("write_cuts")
         cls = op_class(dry[point[0]], point[1], dest_rels)
         r.count("crash@" + cls)
         D, O = read_through(dest), read_through(dest + ".old")
-        pd, po = pattern(D, new, prev, older), pattern(O, new, prev, older)
-        r.outcome(("B", kind, older is not None, cls, pd, po))
+        pd, po = pattern(D, new, prev, names_for(j)), pattern(O, new, prev, names_for(j))
+        r.outcome(("B", gen, kind, older is not None, load, "first" if j == 1 else "later", cls, pd, po))
         in_backup = point[0] < backup_end or point[0] <= first_dest_op
         if not (D == new or O == prev or (in_backup and D == prev)):
             c = dict(case)
             c["crash"] = [point[0], point[1]]
             r.violation(
-                {"kind": "both_copies_lost", "site": "core.py:write_config", "dest_kind": kind, "old_present": older is not None, "crash_at": cls, "dest": pd, "old": po, "backup_finished": not in_backup},
-                f"write_config(save_old=True) of {b} over {a} ({kind}, .old {'present' if older is not None else 'absent'}) dies at {cls} {point} "
-                f"(operations {[(o['op'], o['path']) for o in dry]}): dest is {pd}, .old is {po} -- no complete configuration survives", c)
+                {"kind": "both_copies_lost", "site": site, "gen": gen, "save": "first" if j == 1 else "later", "dest_kind": kind, "old_present": older is not None,
+                 "crash_at": cls, "dest": pd, "old": po, "backup_finished": not in_backup},
+                f"{what}: save #{j} of {nsaves} dies at {cls} {point} (operations of this save {[(o['op'], o['path']) for o in dry[lo:hi]]}): "
+                f"dest is {pd}, .old is {po} -- neither the complete new configuration nor the complete previous one (the text save #{j} found) survives", c)
 
 
 # --------------------------------------------------------------------------------------------------
@@ -618,13 +797,14 @@ def part_b(e: Env, item: dict, r: common.Result, only: Optional[list] = None) ->
 def run_item(item) -> common.Result:
     r = common.Result()
     r.programs = 1
-    e = env()
+    e = env(item.get("tree", "base"))
     if item["part"] == "A":
         part_a(e, item["gen"], item["a"], item["b"], r)
-        r.sample = {"part": "A", "generator": item["gen"], "a": item["a"], "b": item["b"]}
+        r.sample = {"part": "A", "generator": item["gen"], "tree": item.get("tree", "base"), "a": item["a"], "b": item["b"]}
     else:
         part_b(e, item, r)
-        r.sample = {"part": "B", "dest": item["kind"], "older_old_present": item["older"] is not None, "a": item["a"], "b": item["b"], "write_deprecated": item["write_deprecated"], "tree": TREE}
+        r.sample = {"part": "B", "dest": item["kind"], "older_old_present": item["older"] is not None, "history": item.get("hist") or [item["a"], item["b"]],
+                    "save_function": item.get("gen", "write_config"), "instance_loaded_dest": bool(item.get("load")), "write_deprecated": item["write_deprecated"], "tree": TREE}
     return r
 
 
